@@ -109,3 +109,364 @@ def shared_keys(dicts):
                 dup.add(k)
             seen.setdefault(k, j)
     return sorted(dup, key=str)
+
+
+# ---------------------------------------------------------------------------------------------------------------
+# Static inputs that are SCATTERED by the distributed dispatcher (optimize_task_graph_for_dask_distributed):
+# objects that are none of dict/int/str/float/bool/range/Future/callable.
+
+class Val:
+    """A value object: equality and hash by `key` only, `label` is observable (repr) but not part of equality —
+    like pharmpy's Model (== ignores name/description), a dataclass with compare=False fields, Decimal(1)/Fraction(1).
+    Two Val with the same key and different labels are equal, hash-equal, distinct and observably different."""
+
+    def __init__(self, key, label):
+        self.key, self.label = key, label
+
+    def __eq__(self, other):
+        return isinstance(other, Val) and self.key == other.key
+
+    def __hash__(self):
+        return hash(("Val", self.key))
+
+    def __repr__(self):
+        return f"v{self.key}#{self.label}"
+
+
+class UVal:
+    """The same, unhashable (like a DataFrame / a list-holding object)."""
+    __hash__ = None
+
+    def __init__(self, key, label):
+        self.key, self.label = key, label
+
+    def __eq__(self, other):
+        return isinstance(other, UVal) and self.key == other.key
+
+    def __repr__(self):
+        return f"u{self.key}#{self.label}"
+
+
+class FakeFuture:
+    """What FakeClient.scatter returns: stands for 'the datum number n on the cluster' (distributed replaces a
+    Future argument by the scattered datum when the task runs)."""
+
+    def __init__(self, n, obj):
+        self.n, self.obj = n, obj
+
+    def __repr__(self):
+        return f"<future {self.n}>"
+
+
+class FakeClient:
+    def __init__(self):
+        self.store = []
+
+    def scatter(self, value, **kwargs):
+        self.store.append(value)
+        return FakeFuture(len(self.store) - 1, value)
+
+
+def gen_scatter(rng, tier):
+    """A dask graph as Workflow.as_dask_dict makes them — key -> (function, *static inputs, *predecessor keys), one
+    sink 'results' — whose static inputs are drawn from: str/int/bool/dict/range/callable (kept by the dispatcher),
+    None, hashable value objects and unhashable objects (scattered), lists of those (nested), the empty tuple and a
+    non-task tuple.  Value objects come from a pool of 1-3 equality keys with a fresh label each, so DISTINCT objects
+    that compare equal (and hash equal) but are observably different occur in different tasks (and within one task)
+    by construction; sometimes the very same object is given to two tasks."""
+    n = rng.randint(2, 7 if tier == "quick" else 12)
+    nkeys = rng.randint(1, 3)
+    objs = []                       # object table: [kind, key]; the label is the index
+
+    def new_obj():
+        if objs and rng.random() < 0.15:
+            return rng.randrange(len(objs))               # the identical object again
+        kind = "obj" if rng.random() < 0.8 else "uobj"
+        objs.append([kind, rng.randrange(nkeys)])
+        return len(objs) - 1
+
+    def leaf():
+        r = rng.random()
+        if r < 0.50:
+            return ["obj", new_obj()]
+        if r < 0.60:
+            return ["s", f"s{rng.randrange(100)}"]
+        if r < 0.68:
+            return ["i", rng.randrange(5)]
+        if r < 0.73:
+            return ["b", rng.random() < 0.5]
+        if r < 0.78:
+            return ["d"]
+        if r < 0.82:
+            return ["r", rng.randrange(4)]
+        if r < 0.87:
+            return ["fn", rng.randrange(3)]
+        if r < 0.95:
+            return ["none"]
+        return ["tuple"]
+
+    def comp(depth):
+        r = rng.random()
+        if depth < 2 and r < 0.2:
+            return ["list"] + [comp(depth + 1) for _ in range(rng.randint(0, 3))]
+        if depth < 2 and r < 0.25:
+            return ["tuple", ["s", "lit"]] + [comp(depth + 1) for _ in range(rng.randint(0, 2))]
+        return leaf()
+
+    entries = []
+    has_succ = set()
+    for i in range(n):
+        if i == n - 1:
+            ps = [j for j in range(i) if j not in has_succ]
+            rng.shuffle(ps)
+        else:
+            ps = rng.sample(range(i), rng.randint(0, min(2, i))) if i else []
+        has_succ |= set(ps)
+        entries.append(["results" if i == n - 1 else f"k{i}", i, [comp(0) for _ in range(rng.choice([0, 1, 1, 2, 3]))],
+                        [f"k{p}" for p in ps]])
+    return {"kind": "scatter", "objs": objs, "entries": entries, "seed": rng.randrange(1 << 30)}
+
+
+def scatter_corpus():
+    return [
+        # two tasks, each with its own static input; the two objects are equal (same key) but distinct
+        {"kind": "scatter", "seed": 1, "objs": [["obj", 0], ["obj", 0]],
+         "entries": [["k0", 0, [["obj", 0]], []], ["k1", 1, [["obj", 1]], []], ["results", 2, [], ["k0", "k1"]]]},
+        # equal objects inside one task's list, an unhashable one, None, kept values
+        {"kind": "scatter", "seed": 2, "objs": [["obj", 1], ["obj", 1], ["uobj", 1], ["uobj", 1]],
+         "entries": [["k0", 0, [["list", ["obj", 0], ["i", 3], ["obj", 1]], ["none"], ["d"]], []],
+                     ["results", 1, [["obj", 2], ["obj", 3], ["obj", 0], ["tuple"], ["fn", 1]], ["k0"]]]},
+    ]
+
+
+def shrink_scatter(case):
+    import json
+    es = case["entries"]
+    for i in range(len(es) - 1):                      # drop a non-sink entry nobody else refers to more than as a pred
+        c = json.loads(json.dumps(case))
+        key = es[i][0]
+        c["entries"] = [[e[0], e[1], e[2], [p for p in e[3] if p != key]] for j, e in enumerate(c["entries"]) if j != i]
+        yield c
+    for i, e in enumerate(es):
+        for j in range(len(e[2])):
+            c = json.loads(json.dumps(case))
+            del c["entries"][i][2][j]
+            yield c
+            if e[2][j][0] in ("list", "tuple") and len(e[2][j]) > 1:
+                for m in range(1, len(e[2][j])):
+                    c = json.loads(json.dumps(case))
+                    del c["entries"][i][2][j][m]
+                    yield c
+
+
+_SCATTER_FNS = {}
+
+
+def _gfn(j):
+    if j not in _SCATTER_FNS:
+        def g(*a):
+            raise AssertionError("a callable that is a static input was called")
+        g.__name__ = f"g{j}"
+        _SCATTER_FNS[j] = g
+    return _SCATTER_FNS[j]
+
+
+def run_scatter(case, drv):
+    """K + Mon for the clause 'every task receives ITS static inputs' on the distributed dispatcher's graph rewriting
+    (optimize_task_graph_for_dask_distributed), with a recording client whose Futures stand for the scattered datum."""
+    import dask.optimization
+    from pharmpy.workflows.dispatchers.local_dask.optimize import optimize_task_graph_for_dask_distributed
+
+    k, mon, tags = [], [], []
+    reset()
+    table = {}
+
+    def obj(i):
+        if i not in table:
+            kind, key = case["objs"][i]
+            table[i] = (Val if kind == "obj" else UVal)(key, i)
+        return table[i]
+
+    def py(c):
+        t = c[0]
+        if t == "s":
+            return c[1]
+        if t == "i":
+            return int(c[1])
+        if t == "b":
+            return bool(c[1])
+        if t == "d":
+            return {}
+        if t == "r":
+            return range(int(c[1]))
+        if t == "fn":
+            return _gfn(int(c[1]))
+        if t == "none":
+            return None
+        if t == "obj":
+            return obj(int(c[1]))
+        if t == "list":
+            return [py(x) for x in c[1:]]
+        if t == "tuple":
+            return tuple(py(x) for x in c[1:])
+        raise ValueError(c)
+
+    fns = {e[0]: TermFn(e[1], e[0]) for e in case["entries"]}
+    graph = {e[0]: (fns[e[0]], *[py(s) for s in e[2]], *e[3]) for e in case["entries"]}
+    nst = {e[0]: len(e[2]) for e in case["entries"]}
+
+    def canon(x, head=False):
+        """observable form of a computation: futures by number, objects by repr (key#label), the rest by type+repr"""
+        if isinstance(x, FakeFuture):
+            return ["fut", str(x.n)]
+        if isinstance(x, tuple):
+            return ["tuple"] + [canon(y) for y in x]
+        if isinstance(x, list):
+            return ["list"] + [canon(y) for y in x]
+        if isinstance(x, (Val, UVal)):
+            return ["obj", repr(x)]
+        if x is None:
+            return ["obj", "None"]
+        if isinstance(x, TermFn):
+            return ["keep", f"t{x.name}"]
+        if callable(x):
+            return ["keep", getattr(x, "__name__", "fn")]
+        return ["keep", type(x).__name__ + ":" + repr(x)]
+
+    def resolve(x):
+        if isinstance(x, FakeFuture):
+            return x.obj
+        if isinstance(x, tuple):
+            return tuple(resolve(y) for y in x)
+        if isinstance(x, list):
+            return [resolve(y) for y in x]
+        return x
+
+    ndistinct = len({i for e in case["entries"] for s in e[2] for i in _obj_ids(s)})
+    eqpairs = _equal_distinct_pairs(case)
+    tags += ["scatter", f"scatter-n={len(graph)}", f"scatter-objs={min(ndistinct, 6)}",
+             "scatter-equal-distinct-objects" if eqpairs else "scatter-no-equal-distinct-objects"]
+
+    # ---- 1. the rewriting itself, observed before dask's fuse (fuse replaced by the identity for this call)
+    client = FakeClient()
+    real_fuse = dask.optimization.fuse
+    dask.optimization.fuse = lambda d, *a, **kw: (d, {})
+    try:
+        pre = optimize_task_graph_for_dask_distributed(client, dict(graph))
+    finally:
+        dask.optimization.fuse = real_fuse
+    want = {key: canon(v) for key, v in graph.items()}
+    if not isinstance(pre, dict) or list(pre) != list(graph):
+        mon.append({"cls": "scatter-changes-graph-keys", "what": f"keys {list(graph)} became {list(pre) if isinstance(pre, dict) else pre!r}"})
+    else:
+        for key in graph:
+            got = canon(resolve(pre[key]))
+            if got != want[key]:
+                mon.append({"cls": "scatter-task-receives-other-static-input",
+                            "what": f"[distributed dispatcher, optimize_task_graph_for_dask_distributed] task {key!r} is declared as "
+                                    f"{graph[key]!r}; after scattering it is {pre[key]!r}, where the futures stand for "
+                                    f"{client.store!r}: the task would receive {resolve(pre[key])[1:1 + nst[key]]!r} as static inputs"})
+                break
+        if drv is not None:
+            m = drv.ask(["scatter", S_([[key, wire(graph_json)] for key, graph_json in _wire_entries(case)])])
+            code = [S_([[key, canon(pre[key])] for key in graph]), S_([canon(o) for o in client.store])]
+            if m != code:
+                k.append(f"scatter: model {m} code {code}")
+
+    # ---- 2. the graph as really returned (fused), futures replaced by their datum, evaluated by the dask graph rules
+    client2 = FakeClient()
+    out = optimize_task_graph_for_dask_distributed(client2, dict(graph))
+    del LOG[:]
+    memo = {}
+
+    def ev(x, stack=()):
+        if isinstance(x, FakeFuture):
+            return x.obj
+        if isinstance(x, tuple) and x and callable(x[0]):
+            return x[0](*[ev(y, stack) for y in x[1:]])
+        if isinstance(x, list):
+            return [ev(y, stack) for y in x]
+        if isinstance(x, tuple):
+            return resolve(x)                    # a literal (non-task) tuple: its futures stand for their datum as well
+        if isinstance(x, str) and x in out:
+            if x not in memo:
+                if x in stack:
+                    raise RuntimeError("cycle")
+                memo[x] = ev(out[x], stack + (x,))
+            return memo[x]
+        return x
+    try:
+        res = ["ok", ev("results")]
+    except Exception as e:  # noqa
+        if type(e).__name__ in ("CaseTimeout", "Timeout"):
+            raise
+        res = ["err", type(e).__name__ + ": " + str(e)[:100]]
+    val = {}
+    for e in case["entries"]:
+        val[e[0]] = f"t{e[1]}(" + ",".join([render(py(s)) for s in e[2]] + [val[p] for p in e[3]]) + ")"
+    ref = ["ok", val["results"]]
+    if res != ref:
+        mon.append({"cls": "scatter-result-differs", "what": f"[distributed dispatcher] the optimized graph {out!r} (futures: "
+                                                             f"{client2.store!r}) evaluates to {res}; sequential evaluation of the declared graph gives {ref}"})
+    elif sorted(LOG) != sorted(graph):
+        mon.append({"cls": "call-count", "what": f"[distributed dispatcher] calls {sorted(LOG)} for tasks {sorted(graph)}"})
+    return {"k": k, "mon": mon, "tags": tags, "nontrivial": len(graph) >= 3 and bool(eqpairs)}
+
+
+def _obj_ids(c):
+    if c[0] == "obj":
+        return [int(c[1])]
+    if c[0] in ("list", "tuple"):
+        return [i for x in c[1:] for i in _obj_ids(x)]
+    return []
+
+
+def _equal_distinct_pairs(case):
+    """is there a pair of distinct hashable objects with equal key used as static inputs?"""
+    used = sorted({i for e in case["entries"] for s in e[2] for i in _obj_ids(s)})
+    seen = set()
+    for i in used:
+        kind, key = case["objs"][i]
+        if kind == "obj":
+            if key in seen:
+                return True
+            seen.add(key)
+    return False
+
+
+def _wire_entries(case):
+    """entries for the model: (key, (tuple fn static… preds…)) with objects as (obj key idx) / (obj none) etc."""
+    objs = case["objs"]
+
+    def w(c):
+        t = c[0]
+        if t == "obj":
+            kind, key = objs[int(c[1])]
+            return ["obj", ("v" if kind == "obj" else "u") + f"{key}#{c[1]}"]
+        if t == "none":
+            return ["obj", "None"]
+        if t == "s":
+            return ["keep", "str:" + repr(c[1])]
+        if t == "i":
+            return ["keep", "int:" + repr(int(c[1]))]
+        if t == "b":
+            return ["keep", "bool:" + repr(bool(c[1]))]
+        if t == "d":
+            return ["keep", "dict:{}"]
+        if t == "r":
+            return ["keep", "range:" + repr(range(int(c[1])))]
+        if t == "fn":
+            return ["keep", f"g{int(c[1])}"]
+        return [t] + [w(x) for x in c[1:]]
+    for e in case["entries"]:
+        yield e[0], ["tuple", ["keep", f"t{e[1]}"]] + [w(s) for s in e[2]] + [["keep", "str:" + repr(p)] for p in e[3]]
+
+
+def wire(x):
+    return x
+
+
+def S_(x):
+    if isinstance(x, (list, tuple)):
+        return [S_(y) for y in x]
+    return str(x)
